@@ -32,38 +32,66 @@ class Gate:
         self.trace = []
         self.timeouts = 0
         self.enabled = True
+        self.passed = {}
+        self.owner = {}
 
     def arrive(self, key):
         if not self.enabled:
             return
         with self.cv:
             self.waiting.add(key)
+            self.owner[key] = threading.get_ident()
             self.cv.notify_all()
             ok = self.cv.wait_for(lambda: key in self.released, timeout=20)
             if not ok:
                 self.timeouts += 1
             self.released.discard(key)
             self.waiting.discard(key)
+            self.passed[key] = self.passed.get(key, 0) + 1
             self.trace.append(key)
             self.cv.notify_all()
 
 
-def controller(gate, rng, done, settle):
+def controller(gate, rng, done, settle, pct=None):
+    """Releases one waiting thread at a time.  pct=None: uniformly random choice among the waiting gates.
+    pct=d: priority scheduling with d priority-change points (PCT): the highest-priority thread runs until it
+    finishes or blocks; at d random steps the running thread drops to the lowest priority - this reaches
+    'thread A is stopped exactly here while thread B runs through its whole synchronisation'."""
+    prio = {}
+    step = 0
+    change = set(rng.sample(range(1, 260), pct)) if pct else set()
+    last_owner = None
     while not done.is_set():
         with gate.cv:
             gate.cv.wait_for(lambda: len(gate.waiting) > 0 or done.is_set(), timeout=0.5)
             if not gate.waiting:
                 continue
+            if pct is not None and last_owner is not None:
+                # give the thread that just ran a moment to reach its next gate
+                gate.cv.wait_for(lambda: any(gate.owner.get(k) == last_owner for k in gate.waiting) or done.is_set(),
+                                 timeout=0.003)
         if settle:
             time.sleep(settle)      # let other threads reach their gates so that the choice is real
         with gate.cv:
             keys = sorted(gate.waiting)
             if not keys:
                 continue
-            k = rng.choice(keys)
+            if pct is None:
+                k = rng.choice(keys)
+            else:
+                for key in keys:
+                    prio.setdefault(gate.owner.get(key), rng.random())
+                step += 1
+                k = max(keys, key=lambda key: prio[gate.owner.get(key)])
+                if step in change:
+                    prio[gate.owner.get(k)] = min(prio.values()) - 1.0
+                    k = max(keys, key=lambda key: prio[gate.owner.get(key)])
+            last_owner = gate.owner.get(k)
+            before = gate.passed.get(k, 0)
             gate.released.add(k)
             gate.cv.notify_all()
-            gate.cv.wait_for(lambda: k not in gate.waiting, timeout=20)
+            # acknowledge: the released thread has left the gate (it may already be back at its next one)
+            gate.cv.wait_for(lambda: gate.passed.get(k, 0) > before, timeout=20)
 
 
 def objective_table(x):
@@ -100,7 +128,7 @@ def make_problem(ncons, gate, idx_of):
     return P()
 
 
-def run_case(ctx, rng, n, workers, ncons, n_pre, with_store, gated, settle, hold_lock, tmpdir, case_no):
+def run_case(ctx, rng, n, workers, ncons, n_pre, with_store, gated, settle, hold_lock, tmpdir, case_no, line_level=False, pct=None):
     """One batch evaluated in parallel on the real code; returns (observed, request line, trace)."""
     from artap.algorithm import DummyAlgorithm
     from artap.datastore import SqliteDataStore
@@ -142,7 +170,7 @@ def run_case(ctx, rng, n, workers, ncons, n_pre, with_store, gated, settle, hold
     done = threading.Event()
     ctl = None
     if gated:
-        ctl = threading.Thread(target=controller, args=(gate, rng, done, settle), daemon=True)
+        ctl = threading.Thread(target=controller, args=(gate, rng, done, settle, pct), daemon=True)
         ctl.start()
     hold = {"n": 0}
     if hold_lock and with_store:
@@ -199,10 +227,25 @@ def run_case(ctx, rng, n, workers, ncons, n_pre, with_store, gated, settle, hold
             def __getattr__(s, name):
                 return getattr(s.c, name)
         sqlite3.connect = lambda *a, **k: Conn(*a, **k)
+    if line_level and gated:
+        # finer schedules: every source line executed inside artap/job.py and artap/datastore.py by a worker
+        # thread is a gate as well, so the controller also interleaves *inside* Job.evaluate / sync_individual
+        def local_trace(frame, event, arg):
+            if event == "line":
+                gate.arrive(("l", threading.get_ident() % 100000))
+            return local_trace
+
+        def tracer(frame, event, arg):
+            fn = frame.f_code.co_filename
+            if fn.endswith(os.path.join("artap", "datastore.py")) or fn.endswith(os.path.join("artap", "job.py")):
+                return local_trace
+            return None
+        threading.settrace(tracer)
     try:
         with open(os.devnull, "w") as devnull, contextlib.redirect_stdout(devnull), contextlib.redirect_stderr(devnull):
             algo.evaluate(inds)
     finally:
+        threading.settrace(None)
         sqlite3.connect = _real_connect
         done.set()
         with gate.cv:
@@ -240,7 +283,7 @@ def run_case(ctx, rng, n, workers, ncons, n_pre, with_store, gated, settle, hold
     # the schedule actually taken, expanded to model actions
     sched = []
     for kind, t in gate.trace:
-        if t < 0 or t in pre:
+        if kind == "l" or t < 0 or t in pre:
             continue
         sched += [t, t, t] if kind == "c" else [t, t]
     # steps without a gate (ungated runs, no sync gate without a store, already evaluated designs whose
@@ -254,6 +297,17 @@ def run_case(ctx, rng, n, workers, ncons, n_pre, with_store, gated, settle, hold
     line = "c07.run %s|%s|%s|%s|%s|%s|%s" % (
         mat(vecs, rat), vec([2 if t in pre else 0 for t in range(n)]), mat(O, rat),
         mat(C, rat) if ncons else "-", vec(p.signs, rat), mat(RO, rat), vec(sched))
+    if line_level:
+        # collapse runs of line events of one thread: "L<thread>x<count>"
+        out = []
+        for kind, t in gate.trace:
+            if kind == "l" and out and out[-1][0] == "L" and out[-1][1] == t:
+                out[-1][2] += 1
+            elif kind == "l":
+                out.append(["L", t, 1])
+            else:
+                out.append([kind, t, 0])
+        return obs, line, [("%s%d" % (k, t)) if k != "L" else "L%dx%d" % (t % 1000, c) for k, t, c in out]
     return obs, line, [("%s%d" % k) for k in gate.trace]
 
 
@@ -333,6 +387,12 @@ def run(ctx):
         # small configuration: aim at all interleavings of 3 designs x 2 workers
         for _ in range(60 if ctx.quick else 400):
             plan.append(dict(n=3, workers=2, ncons=0, n_pre=0, with_store=True, gated=True, settle=0.003, hold_lock=False))
+        for _ in range(500 if ctx.quick else 8000):
+            # line-level interleavings inside Job.evaluate / sync_individual (2-3 designs, 2-3 workers)
+            plan.append(dict(n=rng.randint(2, 4), workers=rng.randint(2, 3), ncons=rng.choice([0, 1]), n_pre=0, with_store=True,
+                             gated=True, settle=rng.choice([0.0, 0.0005]), hold_lock=False, line_level=True,
+                             pct=rng.choice([None, 1, 1, 2, 3])))
+        rng.shuffle(plan)
         for _ in range(400 if ctx.quick else 20000):
             n = rng.randint(2, 8)
             plan.append(dict(n=n, workers=rng.randint(2, 4), ncons=rng.choice([0, 0, 1, 2]),
@@ -353,6 +413,8 @@ def run(ctx):
             traces.append(trace)
             shapes.append(cfg)
             ctx.count("gated" if cfg["gated"] else "ungated")
+            if cfg.get("line_level"):
+                ctx.count("line_level_schedules")
             ctx.count("with_store" if cfg["with_store"] else "no_store")
             ctx.count("workers_%d" % cfg["workers"])
             if cfg["hold_lock"]:
